@@ -30,7 +30,7 @@ Case(plu, plr, mode, length, files, table, name, order, extra, outer) ==
 S1 == {Case(p[1], p[2], "single", l, <<>>, t, "ok", "canonical", "none", 0) : p \in PLs, l \in SingleLens, t \in Tables}
 \* ... and names, key orders, extra keys, outer shapes on a valid body
 S2 == {Case(3, 0, "single", N(147451), <<>>, "exact", n, o, x, ou) :
-         n \in Names, o \in {"canonical", "reversed"}, x \in {"none", "private", "nested"}, ou \in 0..9}
+         n \in Names, o \in {"canonical", "reversed"}, x \in {"none", "private", "nested"}, ou \in 0..10}
 \* multi-file
 M1 == {Case(p[1], p[2], "multi", ABS, fs, t, "ok", "canonical", "none", 0) :
          p \in {<<1, 0>>, <<3, 0>>, <<0, 0>>}, fs \in Files1 \cup Files2 \cup Files3, t \in {"exact", "oneshort", "onelong"}}
